@@ -38,7 +38,7 @@ where
     let cfg = sim_config(scn, false);
     let scn2 = scn.clone();
     let root2 = root.clone();
-    let (out, _sim) = simrt::run(cfg, move || {
+    let (out, sim) = simrt::run(cfg, move || {
         let (sim, _) = simrt::current().unwrap();
         simrt::fsim::with_fs(sim, |fs| {
             fs.legal = simrt::fsim::LegalFaults {
@@ -54,8 +54,14 @@ where
         ctx.finish()
     });
     let _ = std::fs::remove_dir_all(&root);
+    if sim.abandoned.load(std::sync::atomic::Ordering::SeqCst) {
+        ABANDONED.store(true, std::sync::atomic::Ordering::SeqCst);
+    }
     out
 }
+
+/// a run left simulated threads behind: this process must not run another simulation
+pub static ABANDONED: std::sync::atomic::AtomicBool = std::sync::atomic::AtomicBool::new(false);
 
 fn store_of(scn: &Scenario) -> &StoreScn {
     match &scn.body {
